@@ -783,6 +783,7 @@ def errcCase : P String := do
   match which with
   | "surface" => do
     let nr ← nat
+    -- (third-body mask and constructor flag follow: the documented check counts reactants of any kind)
     pure (okOr ((surfaceProcessCheck nr).map fun _ => s!"errc ok reactants={nr}"))
   | "property" => do
     let kind ← nat
